@@ -637,6 +637,10 @@ for _pid in ("C18", "C07"):
 SPECS["C11"]["parts"].append(dict([dict(p) for p in SPECS["C10"]["parts"] if p["name"] == "rules"][0], name="router-sets",
                                   params={"quick": {"MAXLEN": 1}, "thorough": {"MAXLEN": 2}}, budget={"quick": 60, "thorough": 300}))
 
+SPECS["C15"]["parts"].append(router_part("http-accept", "TestVerifC15HTTPAccept", ["zz_verif_c15http_test.go", "zz_verif_c03_test.go"], shards=1, gomaxprocs=4, budget={"quick": 120, "thorough": 120}))
+# the regexp matcher is shared by every request goroutine: its free-running race pass also decides C20 for that object
+SPECS["C20"]["parts"].append([dict(p) for p in SPECS["C11"]["parts"] if p["name"] == "concurrent-match"][0])
+
 # --------------------------------------------------------------------------------------------
 # Properties not (yet) claimed. Kept current: every property without a SPECS entry must be here.
 NOT_APPLICABLE = {
